@@ -32,7 +32,7 @@ CHECKS = {
         'One genuine defect found here (truncation mid-bit for PZX DATA with p0!=p1 and used bits<8) was repaired by a fix: commit; the exact-pulse/decode theorems are now full strength.',
    note=TB + 'hand models Model/Edges, TapeFiles, TzxFile tied by correspondence (13k cases/run); tapinfo text and TZX loop expansion e2e only', ref='§8 C11'),
  'C04': dict(cat='proof', technique='Lean 4 theorems (decide over mode/directive tables; induction over line lists) + model/implementation correspondence + e2e with an independent two-pass assembler',
-   text='17 theorems: the substitution/fix-mode weight tables of skoolparser and skool2bin select the same directives in all 7 modes (tables dumped from the real modules each run); '
+   text='28 theorems: the substitution/fix-mode weight tables of skoolparser and skool2bin select the same directives in all 7 modes (tables dumped from the real modules each run); '
         'BinWriter layout (prepend/replace/overwrite/append/remove) agrees with sequential assembly of the parser\'s ASM-mode instruction list for all line lists; numeral base conversion preserves value. '
         'The property itself (skool2asm output assembled by an independent mini assembler == skool2bin bytes; #PEEK) is e2e exploration; documented design limits are excluded and two are listed as known findings.',
    note=TB + 'hand models Model/AsmModes, AsmLayout, ReplaceNums tied by correspondence (6k cases/run); label substitution and template text e2e only', ref='§8 C04'),
@@ -53,6 +53,26 @@ CHECKS = {
         'mask truth tables; flip/rotate laws and pixel maps; attribute rules; generic scanline builder pixel theorem for all arrays, scales, crops, masks and depths; the six specialised encoders equal the generic one; '
         'flash rectangle inside the frame and second frame = ink/paper exchanged. zlib trusted; palette construction and tindex/alpha are e2e only.',
    note=TB + 'hand models Model/PngCrc, ZxTile, PngScan tied by correspondence (10k ops/run); zlib trusted', ref='§8 C15'),
+ 'C01': dict(cat='proof', technique='Lean 4 theorems (induction over directive lists, statement lists, chains) + model/implementation correspondence + e2e sna2skool->skool2bin byte compare',
+   text='21 theorems on hand models of CtlParser bookkeeping (blocks/sub-blocks tile the range for every directive list incl. multipliers, M/L directives; from control-file text), '
+        'DEFB/DEFM/DEFW/DEFS range functions and the code walk (statements are consecutive, cover exactly, hold the snapshot bytes; 64K wrap, RST arguments), skool2bin sequential placement, and the composition image_restored '
+        '(partial under NoGap; the full statement is refuted by the known i-block-gap finding). Instruction text<->bytes enters as a hypothesis discharged by C02; comments/ASM directives e2e only.',
+   note=TB + 'hand models Model/CtlTiling, CtlLex, Statements, BinWriter tied by correspondence (5.6k cases/run); two known findings', ref='§8 C01'),
+ 'C02': dict(cat='proof', technique='Lean 4 theorems (digit-list induction, regex-scanner models) + model/implementation correspondence + complete e2e sweep of all opcode slots',
+   text='24 theorems at operand level for all values/bases/cases: number rendering <-> parsing round trips (binary, char, decimal, hex, negative), operand splitting on unquoted commas, '
+        'DEFB/DEFM/DEFW/DEFS statement round trips, relative-jump encoding for all addresses incl. 64K wrap, index offsets, converse direction for operands. '
+        'The 7x256 opcode tables and per-mnemonic dispatch are not modelled: part 1 over them is a complete e2e enumeration (all slots x operand edge sets x boundary addresses x bases; 1.39M cases per quick run), not a theorem.',
+   note=TB + 'hand models Model/OpText, AsmEval tied by correspondence (72k ops/run); opcode tables covered by exhaustive e2e only', ref='§8 C02'),
+ 'C06': dict(cat='proof', technique='Lean 4: kernel-decided equality of the C and Python dispatch tables (translated from both sources each run) + per-closure equivalence contended/plain by a generic tactic + lock-step differential execution of 4 implementations',
+   text='The seven C dispatch tables equal the seven Python tables slot by slot (1792 rows, decide +kernel on regenerated definitions); CMIOSimulator dispatches to the same closure as Simulator for every opcode sequence; '
+        'one step of the Python contended simulator agrees with the plain one on registers, flags, memory, PC, IFF, IM, HALT and port sequences for every closure but three (explicit exclusion). '
+        'The C handler bodies and run loops are NOT translated: per-slot differential against the generated model and lock-step programs (48K/128K, interrupts) are checked correspondence.',
+   note=TB + 'translators py2lean.py/cdispatch.py trusted, validated per slot each run; C bodies by differential execution only', ref='§8 C06'),
+ 'C19': dict(cat='proof', technique='Lean 4 theorems over the model regenerated from cmiosimulator.py (generic tactic per closure) and a hand model of the delay tables (tied exhaustively) + contended-vs-plain oracle on the real simulators',
+   text='Per closure: contended = plain on registers/flags/memory/PC/interrupt state/port sequence and never fewer T-states (3 closures excluded explicitly); outside the display window every closure takes exactly the plain T-states; '
+        'delays are sums of table entries in 0..6, zero when no address is contended; the tables follow the 6,5,4,3,2,1,0,0 pattern on the 48K/128K frame layouts (all 69888+70908 entries compared with the Python lists each run). '
+        'The per-instruction cycle breakdown itself is tied between the Python and C copies by differential execution at all phases, not proved against documentation.',
+   note=TB + 'translator validated per slot; Model/Contend.lean tied exhaustively (tables) and by correspondence (fold functions)', ref='§8 C19'),
 }
 NA = {}
 def main():
